@@ -134,7 +134,6 @@ pub(super) fn derive_schema(input: TokenStream) -> syn::Result<TokenStream> {
 
                     if field_attrs.serde.skip
                     || field_attrs.serde.skip_serializing
-                    || field_attrs.serde.skip_deserializing
                     {
                         continue
                     }
@@ -161,6 +160,8 @@ pub(super) fn derive_schema(input: TokenStream) -> syn::Result<TokenStream> {
 
                     let is_optional_field = inner_option.is_some()
                         || field_attrs.serde.default
+                        || container_attrs.serde.default
+                        || field_attrs.serde.skip_deserializing /* written, but never read */
                         || field_attrs.serde.skip_serializing_if.is_some();
 
                     let mut property_schema = {
